@@ -27,6 +27,20 @@ int main(int argc, char **argv) {
         if (!in_tables(r.country) || !in_tables(r.countryCode)) { puts("CONFIRMED: country does not refer to a table entry"); bad = 1; }
         if (r.languages.empty()) { puts("CONFIRMED: no language name returned although no error is reported"); bad = 1; }
         for (auto l : r.languages) if (!in_tables(l)) { puts("CONFIRMED: a language name does not refer to a table entry"); bad = 1; }
+        // agreement with the text (independent split of the input): language_COUNTRY[.charset]
+        size_t us = in.find('_'), dot = in.find('.');
+        if (us == std::string::npos || (dot != std::string::npos && dot < us)) { puts("CONFIRMED: accepted although the input is not language_COUNTRY"); bad = 1; }
+        else {
+            std::string lang = in.substr(0, us), ctry = in.substr(us + 1, (dot == std::string::npos ? in.size() : dot) - us - 1);
+            bool lok = false;
+            for (int i = 0; i < LocaleInfo::languagesCount; i++)
+                if (r.languageCode && !strcmp(LocaleInfo::languageInfo[i].code, r.languageCode) && (lang == LocaleInfo::languageInfo[i].code || lang == LocaleInfo::languageInfo[i].value)) lok = true;
+            if (!lok) { printf("CONFIRMED: languageCode %s is not the code of an entry whose code or name is \"%s\"\n", r.languageCode ? r.languageCode : "(null)", lang.c_str()); bad = 1; }
+            if (!bad && ctry != r.countryCode && ctry != r.country) { printf("CONFIRMED: country %s / %s returned for the country part \"%s\"\n", r.countryCode, r.country, ctry.c_str()); bad = 1; }
+            for (auto l : r.languages) { bool ok = false;
+                for (int i = 0; i < LocaleInfo::languagesCount; i++) if (l == LocaleInfo::languageInfo[i].value && (lang == LocaleInfo::languageInfo[i].code || lang == LocaleInfo::languageInfo[i].value)) ok = true;
+                if (!ok && !bad) { printf("CONFIRMED: language name %s listed for \"%s\"\n", l, lang.c_str()); bad = 1; } }
+        }
     }
     if (!bad) puts("NOT-REPRODUCED");
     return bad;
